@@ -81,18 +81,23 @@ def remU (a b : BitVec w) : Res (BitVec w) :=
   if b == 0#w then .panic "runtime error: integer divide by zero" else .ok (BitVec.umod a b)
 
 /-- `a << n`, unsigned count: counts ≥ width give 0 (BitVec.shiftLeft already does). -/
-def shlU (a n : BitVec w) : BitVec w := a <<< n.toNat
+def shlN (a : BitVec w) (n : Nat) : BitVec w := if n ≥ w then 0#w else a <<< n
+def shrN (a : BitVec w) (n : Nat) : BitVec w := if n ≥ w then 0#w else a >>> n
+/-- arithmetic shift right; counts ≥ width fill with the sign bit -/
+def sshrN (a : BitVec w) (n : Nat) : BitVec w :=
+  if n ≥ w then (if a.msb then BitVec.allOnes w else 0#w) else BitVec.sshiftRight a n
+def shlU (a n : BitVec w) : BitVec w := shlN a n.toNat
 /-- `a >> n` on an unsigned value, unsigned count. -/
-def shrUU (a n : BitVec w) : BitVec w := a >>> n.toNat
+def shrUU (a n : BitVec w) : BitVec w := shrN a n.toNat
 /-- `a >> n` on a signed value, unsigned count (arithmetic). -/
-def shrSU (a n : BitVec w) : BitVec w := BitVec.sshiftRight a n.toNat
+def shrSU (a n : BitVec w) : BitVec w := sshrN a n.toNat
 
 /-- `a << n` with a *signed* count: Go panics when `n < 0`. -/
 def shlS (a n : BitVec w) : Res (BitVec w) :=
-  if n.msb then .panic "runtime error: negative shift amount" else .ok (a <<< n.toNat)
+  if n.msb then .panic "runtime error: negative shift amount" else .ok (shlN a n.toNat)
 /-- `a >> n`, signed value and signed count. -/
 def shrSS (a n : BitVec w) : Res (BitVec w) :=
-  if n.msb then .panic "runtime error: negative shift amount" else .ok (BitVec.sshiftRight a n.toNat)
+  if n.msb then .panic "runtime error: negative shift amount" else .ok (sshrN a n.toNat)
 end ints
 
 /-! ### IEEE-754 binary64 on bit patterns -/
@@ -149,4 +154,17 @@ def utf8EncodeRune (r : BitVec 32) : Bytes :=
      b (0x80 ||| ((n >>> 6) &&& 0x3F)), b (0x80 ||| (n &&& 0x3F))]
   else [0xEF, 0xBF, 0xBD]
 
+end UgoVerif.Go
+
+namespace UgoVerif.Go
+/-- the guarded shifts are the BitVec shifts (the guard only keeps the executable
+    definition from building astronomically large naturals) -/
+theorem shlN_eq {w} (a : BitVec w) (n : Nat) : shlN a n = a <<< n := by
+  unfold shlN; split
+  · rename_i h; exact (BitVec.shiftLeft_eq_zero h).symm
+  · rfl
+theorem shrN_eq {w} (a : BitVec w) (n : Nat) : shrN a n = a >>> n := by
+  unfold shrN; split
+  · rename_i h; exact (BitVec.ushiftRight_eq_zero h).symm
+  · rfl
 end UgoVerif.Go
